@@ -492,7 +492,20 @@ fn make_mmap(tmpfile: &mut NamedTempFile, size: Option<usize>) -> Result<Option<
                 tmpfile.path().display()
             )
         })?;
-        Ok(unsafe { MmapMut::map_mut(tmpfile.as_file()).ok() })
+        match unsafe { MmapMut::map_mut(tmpfile.as_file()) } {
+            Ok(mmap) => Ok(Some(mmap)),
+            Err(_) => {
+                // Without a mapping the data is appended with plain writes:
+                // give back the space that was reserved for the mapping.
+                tmpfile.as_file().set_len(0).with_context(|| {
+                    format!(
+                        "Failed to reset file length for temp file at {}",
+                        tmpfile.path().display()
+                    )
+                })?;
+                Ok(None)
+            }
+        }
     } else {
         Ok(None)
     }
